@@ -1,6 +1,7 @@
 package main
 
 import (
+	"sort"
 	"bytes"
 	"context"
 	"fmt"
@@ -38,50 +39,103 @@ func plainSMT(q string) string { return rewriteAuto(q, false) }
 func patSMT(q string) string   { return rewriteAuto(q, true) }
 
 func rewriteAuto(q string, keep bool) string {
-	const mark = " :autopattern "
+	const mark = ":autopattern"
 	if !strings.Contains(q, mark) {
 		return q
 	}
 	if keep {
-		return strings.ReplaceAll(q, mark, " :pattern ")
+		return strings.ReplaceAll(q, " "+mark+" ", " :pattern ")
 	}
-	var b strings.Builder
-	for {
-		i := strings.Index(q, mark)
-		if i < 0 {
-			b.WriteString(q)
-			break
-		}
-		// the annotation "(! body :autopattern (..))": find the opening "(! " that encloses position i
-		depth := 0
-		open := -1
-		for j := i - 1; j >= 0; j-- {
-			switch q[j] {
-			case ')':
-				depth++
-			case '(':
-				if depth == 0 {
-					open = j
-				} else {
-					depth--
+	// forward scan (quoted symbols |..| and string literals may contain parentheses): for every annotation
+	// "(! body :autopattern (..))" remember the spans to delete: the "(! " opener, and " :autopattern (..))" at the end
+	type span struct{ from, to int }
+	var cuts []span
+	var stack []int
+	n := len(q)
+	for i := 0; i < n; i++ {
+		switch q[i] {
+		case '|':
+			j := strings.IndexByte(q[i+1:], '|')
+			if j < 0 {
+				i = n
+			} else {
+				i += j + 1
+			}
+		case '"':
+			j := strings.IndexByte(q[i+1:], '"')
+			if j < 0 {
+				i = n
+			} else {
+				i += j + 1
+			}
+		case ';':
+			j := strings.IndexByte(q[i:], '\n')
+			if j < 0 {
+				i = n
+			} else {
+				i += j
+			}
+		case '(':
+			stack = append(stack, i)
+		case ')':
+			if len(stack) > 0 {
+				stack = stack[:len(stack)-1]
+			}
+		case ':':
+			if strings.HasPrefix(q[i:], mark) && len(stack) > 0 {
+				open := stack[len(stack)-1]
+				if strings.HasPrefix(q[open:], "(! ") {
+					// the pattern list follows; find its end with the same lexical rules
+					k := i + len(mark)
+					for k < n && q[k] == ' ' {
+						k++
+					}
+					depth := 0
+					end := -1
+					for m := k; m < n; m++ {
+						c := q[m]
+						if c == '|' {
+							j := strings.IndexByte(q[m+1:], '|')
+							if j < 0 {
+								break
+							}
+							m += j + 1
+							continue
+						}
+						if c == '(' {
+							depth++
+						} else if c == ')' {
+							depth--
+							if depth == 0 {
+								end = m
+								break
+							}
+						}
+					}
+					if end > 0 && end+1 < n && q[end+1] == ')' {
+						cuts = append(cuts, span{open, open + 3})
+						cuts = append(cuts, span{i - 1, end + 2}) // from the space before the mark through the ")" closing "(! "
+						stack = stack[:len(stack)-1]
+						i = end + 1
+					}
 				}
 			}
-			if open >= 0 {
-				break
-			}
 		}
-		// the pattern list after the mark
-		k := i + len(mark)
-		end := matchParen(q, k)
-		if open < 0 || end < 0 || !strings.HasPrefix(q[open:], "(! ") {
-			b.WriteString(q[:i+len(mark)])
-			q = q[i+len(mark):]
+	}
+	if len(cuts) == 0 {
+		return q
+	}
+	sort.Slice(cuts, func(a, b int) bool { return cuts[a].from < cuts[b].from })
+	var b strings.Builder
+	pos := 0
+	for _, c := range cuts {
+		if c.from < pos {
 			continue
 		}
-		b.WriteString(q[:open])
-		b.WriteString(q[open+3 : i])
-		q = q[end+2:] // skip the pattern list and the ")" closing the annotation
+		b.WriteString(q[pos:c.from])
+		pos = c.to
 	}
+	b.WriteString(q[pos:])
 	return b.String()
 }
 
